@@ -1249,7 +1249,9 @@ impl Machine {
                 }
                 Instruction::JmpIfNeg(cond, offset) => {
                     let cond_v = self.get_stack(cond as i64);
-                    if Self::get_as::<f64>(cond_v) <= 0.0 {
+                    // A condition is true only when it is strictly positive; NaN is false,
+                    // as in the WASM backend and the generated Rust code.
+                    if !(Self::get_as::<f64>(cond_v) > 0.0) {
                         increment = offset;
                     }
                 }
